@@ -45,6 +45,7 @@ import (
 	"github.com/gotid/god/lib/stat"
 	"github.com/gotid/god/rpc/internal"
 	"github.com/gotid/god/rpc/internal/mock"
+	"github.com/gotid/god/rpc/internal/serverinterceptors"
 	"google.golang.org/grpc"
 	"google.golang.org/grpc/codes"
 	"google.golang.org/grpc/credentials/insecure"
@@ -398,6 +399,139 @@ func (c *c02Child) call(server string, beh string, late bool, cause, wait string
 	return r
 }
 
+// ---------------------------------------------------------------- stress: the panic clause under load
+
+// c02Capture is an internal.Server that only records what setupInterceptors adds.
+type c02Capture struct {
+	unary []grpc.UnaryServerInterceptor
+}
+
+func (c *c02Capture) AddOptions(...grpc.ServerOption)                       {}
+func (c *c02Capture) AddStreamInterceptors(...grpc.StreamServerInterceptor) {}
+func (c *c02Capture) AddUnaryInterceptors(is ...grpc.UnaryServerInterceptor) {
+	c.unary = append(c.unary, is...)
+}
+func (c *c02Capture) SetName(string)                  {}
+func (c *c02Capture) Start(internal.RegisterFn) error { return nil }
+
+// c02RpcStress issues many concurrent calls of one in-time scenario (the panicking handler):
+//   - in-process through UnaryCrashInterceptor around the interceptors the real setupInterceptors
+//     adds (the time-out interceptor), the order server.Start gives them; every call must come back
+//     with a status of the allowed code - an (interface{}(nil), nil) result means the panic was
+//     swallowed (over the wire grpc would turn the nil message into Internal and hide it);
+//   - against the real server in the child process: every client must see the allowed code.
+func c02RpcStress(c kit.Case, m kit.M, child *c02Child, rep *kit.Reporter) kit.Verdict {
+	v := kit.Verdict{Case: c.Index, OK: true}
+	exp := kit.List(m["exp"])
+	beh := kit.Str(m["beh"])
+	nLocal, nWire := kit.Num(m["n_local"]), kit.Num(m["n_wire"])
+	logx.Disable()
+	capt := &c02Capture{}
+	conf := ServerConfig{ListenOn: "127.0.0.1:1", Timeout: c02RpcLongMs, CpuThreshold: 0}
+	if err := setupInterceptors(capt, conf, stat.NewMetrics("verif-c02-stress")); err != nil {
+		return kit.Verdict{Case: c.Index, Infra: true, Msg: err.Error()}
+	}
+	if len(capt.unary) == 0 {
+		return kit.Verdict{Case: c.Index, Infra: true, Msg: "setupInterceptors added no unary interceptor"}
+	}
+	info := &grpc.UnaryServerInfo{FullMethod: "/mock.DepositService/Deposit"}
+	var inner grpc.UnaryHandler = func(ctx context.Context, req interface{}) (interface{}, error) {
+		switch beh {
+		case "panic":
+			panic("verif C02: scripted handler panic")
+		case "err":
+			return nil, status.Error(codes.InvalidArgument, "verif C02: scripted handler error")
+		}
+		return &mock.DepositResponse{Ok: true}, nil
+	}
+	for i := len(capt.unary) - 1; i >= 0; i-- {
+		ic, next := capt.unary[i], inner
+		inner = func(ctx context.Context, req interface{}) (interface{}, error) { return ic(ctx, req, info, next) }
+	}
+	one := func() (code string, swallowed bool) {
+		defer func() {
+			if p := recover(); p != nil {
+				code = "panic-escaped-the-chain"
+			}
+		}()
+		resp, err := serverinterceptors.UnaryCrashInterceptor(context.Background(), &mock.DepositRequest{Amount: 1}, info, inner)
+		if err == nil && (resp == nil || beh == "panic") {
+			return "OK", true
+		}
+		return status.Code(err).String(), false
+	}
+	var next, bad atomic.Int64
+	var mu sync.Mutex
+	fail := func(key, msg string) {
+		bad.Add(1)
+		mu.Lock()
+		if v.OK {
+			v.OK, v.Key, v.Msg = false, key, msg
+		}
+		mu.Unlock()
+	}
+	var wg sync.WaitGroup
+	for w := 0; w < 64; w++ {
+		wg.Add(1)
+		go func() {
+			defer wg.Done()
+			for bad.Load() == 0 {
+				i := next.Add(1)
+				if i > int64(nLocal) {
+					return
+				}
+				code, swallowed := one()
+				switch {
+				case swallowed:
+					fail("C02:rpc:panic-swallowed", fmt.Sprintf("stress (in-process, crash interceptor around the interceptors of setupInterceptors): call #%d of %d concurrent %s calls returned (nil, nil) - the handler's panic was swallowed; specification allows %v", i, nLocal, beh, exp))
+				case !c02In(exp, code):
+					fail("C02:rpc:stress-code:"+beh, fmt.Sprintf("stress (in-process): call #%d of %d concurrent %s calls returned code %s, specification allows %v", i, nLocal, beh, code, exp))
+				}
+			}
+		}()
+	}
+	wg.Wait()
+	local := int(next.Load())
+	if local > nLocal {
+		local = nLocal
+	}
+	v.Steps += local
+	rep.Count("stress.local."+beh, local)
+	if !v.OK {
+		return v
+	}
+	// over the wire
+	next.Store(0)
+	for w := 0; w < 64; w++ {
+		wg.Add(1)
+		go func() {
+			defer wg.Done()
+			for bad.Load() == 0 && child.alive() {
+				i := next.Add(1)
+				if i > int64(nWire) {
+					return
+				}
+				r := child.call("pub-long", beh, false, "deadline", "none", c02RpcBarrier)
+				if !c02In(exp, r.client) && child.alive() {
+					fail("C02:rpc:stress-code:"+beh, fmt.Sprintf("stress (real server): call #%d of %d concurrent %s calls: client saw %s, specification allows %v", i, nWire, beh, r.client, exp))
+				}
+			}
+		}()
+	}
+	wg.Wait()
+	if !child.alive() {
+		v.OK, v.Key, v.Msg = false, "C02:rpc:server-down:stress-"+beh, fmt.Sprintf("server process died under %d concurrent %s calls", nWire, beh)
+		return v
+	}
+	wire := int(next.Load())
+	if wire > nWire {
+		wire = nWire
+	}
+	v.Steps += wire
+	rep.Count("stress.wire."+beh, wire)
+	return v
+}
+
 func c02In(set []any, s string) bool {
 	for _, e := range set {
 		if kit.Str(e) == s {
@@ -434,6 +568,17 @@ func TestVerifC02Rpc(t *testing.T) {
 			continue
 		}
 		m := c.Steps[0]
+		if kit.Str(m["mode"]) == "rpc-stress" {
+			rep.Put(c02RpcStress(c, m, child, rep))
+			if !child.alive() {
+				child.stop()
+				if child, err = c02Spawn(); err != nil {
+					rep.Put(kit.Verdict{Case: -1, Infra: true, Msg: "respawn: " + err.Error()})
+					return
+				}
+			}
+			continue
+		}
 		beh, late, cause, wait := kit.Str(m["beh"]), kit.Bool(m["late"]), kit.Str(m["cause"]), kit.Str(m["wait"])
 		exp := kit.List(m["exp"])
 		atDeadline := kit.Str(m["at"]) == "deadline" // the answer must arrive at the deadline/cancel, not at the handler's end
